@@ -26,7 +26,8 @@ Record case := mkCase {
   k_rank : res (list row);                     (* rank_models: rows in DataFrame order *)
   k_tool : option (res (list trow * id));      (* create_results: summary_tool rows, final_model.name *)
   k_lrt : list lrtobs;
-  k_bom : list bomobs
+  k_bom : list bomobs;
+  k_xstrict : list (sexpr * list (res bool))   (* further expressions evaluated on base :: models *)
 }.
 
 Definition tab_log (t : list (positive * Q)) (n : positive) : Q :=
@@ -79,8 +80,11 @@ Let tol := is_bic cf.
 Definition model_strict : list (res bool) := map (is_strictness_fulfilled (cf_strict cf)) all.
 Definition spec_strict : list (res bool) := map (spec_strictness (cf_strict cf)) all.
 
+(* A correspondence tag is raised when the implementation agrees NEITHER with the faithful model NOR with the
+   documented reference: on inputs where the two differ (guard false = a known defect) an implementation that
+   has been repaired is accepted without alarm. *)
 Definition check_strict : list nat :=
-  tag (list_eqb_res model_strict (k_strict k)) 2.
+  tag (list_eqb_res model_strict (k_strict k) || list_eqb_res spec_strict (k_strict k)) 2.
 
 Definition model_rank : res (list row) :=
   rank_models logf isf (is_strictness_fulfilled (cf_strict cf)) cf (k_base k) (k_models k).
@@ -89,15 +93,19 @@ Definition model_rank : res (list row) :=
 Definition ref_is_nan (rows : list row) : bool := forallb (fun r => match w_delta r with None => true | _ => false end) rows.
 Definition obs_key (rows : list row) : row -> option Q := if ref_is_nan rows then w_value else w_delta.
 
-Definition check_rank : list nat :=
-  match model_rank, k_rank k with
-  | Err a, Err b => tag (err_eqb a b) 1
+Definition spec_rank : res (list row) :=
+  rank_models logf isf (spec_strictness (cf_strict cf)) cf (k_base k) (k_models k).
+Definition agrees_with (okf : cand -> res bool) (m : res (list row)) : bool :=
+  match m, k_rank k with
+  | Err a, Err b => err_eqb a b
   | Ok m, Ok o =>
-      let key := match get_ref logf (is_strictness_fulfilled (cf_strict cf)) cf (k_base k) with
-                 | Ok (Some _) => w_delta | _ => w_value end in
-      tag (rows_agree tol key o m) 1
-  | _, _ => [1]
+      let key := match get_ref logf okf cf (k_base k) with Ok (Some _) => w_delta | _ => w_value end in
+      rows_agree tol key o m
+  | _, _ => false
   end.
+Definition check_rank : list nat :=
+  tag (agrees_with (is_strictness_fulfilled (cf_strict cf)) model_rank
+       || agrees_with (spec_strictness (cf_strict cf)) spec_rank) 1.
 
 (* ---- oracle: the property statement on the implementation's output *)
 Definition ranked (r : row) : bool := match w_rank r with Some _ => true | None => false end.
@@ -145,6 +153,17 @@ Definition check_oracle_rank : list nat :=
 Definition check_oracle_strict : list nat :=
   tag (list_eqb_res spec_strict (k_strict k)) 14.
 
+(* further expressions: correspondence, and strictness_eval_sound's statement itself (guards -> documented meaning) *)
+Definition check_xstrict : list nat :=
+  flat_map (fun p =>
+    let '(e, obs) := p in
+    tag (list_eqb_res (map (is_strictness_fulfilled (StExpr e)) all) obs
+         || list_eqb_res (map (spec_strictness (StExpr e)) all) obs) 2 ++
+    tag (forallb (fun p => if g_rse_not_rebound e && g_grad_nan_rows e (fst p) && g_near_round e (fst p)
+                           then resb_eqb (spec_strictness (StExpr e) (fst p)) (snd p) else true)
+                 (combine all obs)) 19 ++
+    tag (well_typed e) 1002) (k_xstrict k).
+
 (* 16/5: final model of create_results *)
 Definition min_rank (rows : list row) : option nat :=
   fold_right (fun r acc => match w_rank r, acc with
@@ -154,12 +173,17 @@ Definition check_tool : list nat :=
   | None => []
   | Some (Err e) =>
       (* summarize_tool raises ValueError when no candidate has a rank value (non-lrt), or rank_models raised *)
-      match model_tool logf isf (is_strictness_fulfilled (cf_strict cf)) cf (k_base k) (k_models k) with
-      | Err e' => tag (err_eqb e e') 5
-      | Ok _ => [5]
-      end
+      tag (match model_tool logf isf (is_strictness_fulfilled (cf_strict cf)) cf (k_base k) (k_models k) with
+           | Err e' => err_eqb e e' | Ok _ => false end
+           || match model_tool logf isf (spec_strictness (cf_strict cf)) cf (k_base k) (k_models k) with
+              | Err e' => err_eqb e e' | Ok _ => false end) 5
   | Some (Ok (trs, best)) =>
       let rows := map t_row trs in
+      (* the model does not refuse either *)
+      tag (match model_tool logf isf (is_strictness_fulfilled (cf_strict cf)) cf (k_base k) (k_models k) with
+           | Ok _ => true | Err _ => false end
+           || match model_tool logf isf (spec_strictness (cf_strict cf)) cf (k_base k) (k_models k) with
+              | Ok _ => true | Err _ => false end) 5 ++
       (* same table as rank_models returned *)
       tag (match k_rank k with Ok o => list_eqb_rows tol rows o | Err _ => false end) 6 ++
       (* n_params = number of non-fixed parameters, d_params relative to the base *)
@@ -217,12 +241,13 @@ Definition check_lrt : list nat :=
 
 Definition guard_tags : list nat :=
   match cf_strict cf with
-  | None => []
-  | Some e => tag (g_rse_not_rebound e) 201 ++ tag (forallb (g_grad_nan_rows e) all) 202
+  | StExpr e => tag (g_rse_not_rebound e) 201 ++ tag (forallb (g_grad_nan_rows e) all) 202
+                ++ tag (forallb (g_near_round e) all) 204
+  | _ => []
   end ++ tag (names_distinct all) 203.
 
 Definition verdict_of : list nat :=
-  check_strict ++ check_rank ++ check_tool ++ check_ic ++ check_lrt
+  check_strict ++ check_xstrict ++ check_rank ++ check_tool ++ check_ic ++ check_lrt
   ++ check_oracle_rank ++ check_oracle_strict ++ guard_tags.
 
 End WithCase.
